@@ -112,4 +112,26 @@ CHECKS = {
          'outputs with the verified checker (sample); domain restriction: '
          'environment action independent of y\' (inputs the library rejects '
          'by its own assertion are counted as rejected). No axioms.')),
+ 'C16': dict(
+   design_ref='§6 C16',
+   technique='Coq theorems over a table-driven lexer and Pratt-parser model (tie G: tables regenerated from lexyacc.py, bitvector.py and doc.md every run; tie H: vm_compute correspondence with the real PLY parser, flatten and split_gr1)',
+   text=('The precedence tuple, token rules (PLY order, spellings, '
+         'normalisation), productions, opmap and the documentation precedence '
+         'list and BNF are extracted with ast on every run. Proved by '
+         'vm_compute over the generated tables (bounded): documented tokens '
+         'have lexer spellings, documented order/associativity match the '
+         'tuple, same shift/reduce decisions, normalised spellings give '
+         'identical tokens, un-normalised synonyms share an opmap image. '
+         'Proved for all inputs: the parser model returns the unique tree the '
+         'table determines (operators, parentheses, terminals, ranges, ite, '
+         'IF/THEN/ELSE, quantifiers); flatten/parse round trip at token and '
+         'string level; blanks, newlines and comments do not matter; '
+         'spellings never matter; split_gr1 returns exactly the four lists '
+         'for any nesting and None outside the fragment. Every generated '
+         'string is lexed and parsed by PLY and by the model and compared.'),
+   note=('Trusted: Coq kernel+vm_compute; the fail-closed extractor '
+         'syntax_tables.py; PLY LALR tables are NOT modelled (tied by '
+         'correspondence only); \\S not modelled; LET, junction lists, <<>> '
+         'and @ are in the model but outside prec_determines_tree; its '
+         'converse is not proved. No axioms.')),
 }
